@@ -174,7 +174,8 @@ fn slice_fault(a: &Args, t: &mut Trace) {
         }
         let kind = (i % 5) as u32;
         let mut r = rng_for(a.seed, stream + 7_000_000);
-        let hmode = hforce.unwrap_or(r.below(5));
+        // deterministic hashers only (identity, constant, FNV): the call index of an injection must mean the same on replay
+        let hmode = hforce.unwrap_or(2 + r.below(3));
         let len = r.range(a.len / 2 + 1, a.len) as usize;
         let mut vg = gen::ValGen(1000);
         // configuration and generator per cache type
